@@ -224,6 +224,17 @@ func runC06(r *Run) {
 		listeners[0].slow = false
 		stalled := c06Stall
 		c06BigSegs, c06Stall = false, 0
+		if res.inconclusive == "setup" || res.inconclusive == "no-backend-connection" {
+			// a valid set-up sequence that does not produce the channel: nothing the client sends can reach the
+			// host. Tried again before it counts (a loaded machine can miss the 5 s).
+			shape := res.shape
+			wsForce = res.ws
+			if res2 := relayOnce(kind, gws, listeners[0], port, up[:min(len(up), 1000)], nil, rng); res2.inconclusive == res.inconclusive {
+				r.Violation("c06-setup", "a valid tunnel set-up did not produce a channel, so the client's bytes are not delivered",
+					fmt.Sprintf("transport=%s; handshake, tunnel create, tunnel authorization and channel create for an allowed host were sent (%s; second attempt: %s) and no channel response / backend connection followed within 5 s, twice (%s)\n", kind, shape, res2.shape, res.inconclusive))
+				continue
+			}
+		}
 		if res.inconclusive != "" {
 			r.Inconclusive()
 			r.Dist("api-inconclusive:" + res.inconclusive)
@@ -231,8 +242,8 @@ func runC06(r *Run) {
 		}
 		r.Count(fmt.Sprintf("api:%s:%d:%d:%d", kind, upTotal, downTotal, i))
 		r.Dist("api:" + kind)
-		rep := fmt.Sprintf("transport=%s client→host %d bytes in %d DATA packets over %d transport writes, host→client %d bytes; large transport messages=%v; client stalled for %v; slow host=%v\nhost received %d bytes (first difference at %d)\nclient received %d payload bytes in DATA packets (first difference at %d)\n",
-			kind, len(up), res.upPkts, res.upSegs, len(down), i%5 == 4, stalled, slowHost, len(res.hostGot), firstDiff(res.hostGot, up), len(res.clientGot), firstDiff(res.clientGot, down))
+		rep := fmt.Sprintf("transport=%s client→host %d bytes in %d DATA packets over %d transport writes, host→client %d bytes; large transport messages=%v; client stalled for %v; slow host=%v; %s\nhost received %d bytes (first difference at %d)\nclient received %d payload bytes in DATA packets (first difference at %d)\n",
+			kind, len(up), res.upPkts, res.upSegs, len(down), i%5 == 4, stalled, slowHost, res.shape, len(res.hostGot), firstDiff(res.hostGot, up), len(res.clientGot), firstDiff(res.clientGot, down))
 		if res.malformed != "" {
 			r.Violation("c06-api-malformed", "a DATA packet sent to the client is not well-formed: "+res.malformed, rep)
 			continue
@@ -269,6 +280,8 @@ type relayResult struct {
 	upPkts, upSegs     int
 	malformed          string
 	inconclusive       string
+	shape              string // how the client's messages went on the wire
+	ws                 *wsClient
 }
 
 // relayOnce opens a tunnel through the real handler, relays `up` from the client
@@ -296,6 +309,7 @@ func relayOnce(kind string, g *gwServer, host *hostListener, port int, up, down 
 			return res
 		}
 		cl, pr = w, readWS(w, 20*time.Second)
+		res.shape, res.ws = w.shape(), w
 	default:
 		l, err := dialLegacy(g.addr, connID, "")
 		if err != nil {
@@ -303,6 +317,7 @@ func relayOnce(kind string, g *gwServer, host *hostListener, port int, up, down 
 			return res
 		}
 		cl, pr = l, readLegacy(l, 20*time.Second)
+		res.shape = "legacy: chunked body"
 	}
 	defer cl.close()
 	setup := [][]byte{
